@@ -1,0 +1,11 @@
+//go:build !verif
+
+// Package verifhook provides named hook points for external verification
+// tooling. Without the "verif" build tag every hook is an empty function.
+package verifhook
+
+// Enabled reports whether the hooks are compiled in.
+const Enabled = false
+
+// Point marks a named site. It does nothing unless built with -tags verif.
+func Point(site string) {}
